@@ -8,7 +8,7 @@ CFG = dict(
                   "SaramaVerif.Lemmas.C02sysStepP", "SaramaVerif.Lemmas.C02sysStepP2", "SaramaVerif.Lemmas.C02sysStepP3",
                   "SaramaVerif.Lemmas.C02sysFifo", "SaramaVerif.Lemmas.C02sysCons", "SaramaVerif.Lemmas.C02sysCons2",
                   "SaramaVerif.Lemmas.C02sysCons3", "SaramaVerif.Props.C02sys"],
-    lean_support=["SaramaVerif.Driver.ProducerTrace", "SaramaVerif.Model.IdemBroker"],
+    lean_support=["SaramaVerif.Driver.ProducerTrace", "SaramaVerif.Driver.PipelineTrace", "SaramaVerif.Model.IdemBroker"],
     model="C02",
     overlay=["sim", "c02"],
     required_theorems=["Props.C02.recv_level", "Props.C02.pp_level_fifo", "Props.C02.parked_only_below_hwm", "Props.C02.runAll_inv",
@@ -24,7 +24,7 @@ CFG = dict(
     timeout={"quick": 600, "thorough": 3000},
     level="proof",
     assumptions=[
-        "end-to-end log order is PROVED (log_order_single_worker) for the composed system model (submit / dispatcher / partition producer / broker worker / retry queue / broker log, any interleaving, leader moves that come back, lookup failures, stale and empty sets, connection errors, every Retry.Max >= 1) in which one partition uses one broker worker and the producer is not idempotent; a true hand-over of the partition to a SECOND live worker, several partitions sharing a worker, Retry.Max = 0 and the idempotent paths are decided per run by the oracle on the simulated partition logs only (statement kept as LogOrderGeneral); the composed system model itself is not trace-validated - its partition-producer and broker-worker components (reused unchanged) are",
+        "end-to-end log order is PROVED (log_order_single_worker) for the composed system model (submit / dispatcher / partition producer / broker worker / retry queue / broker log, any interleaving, leader moves that come back, lookup failures, stale and empty sets, connection errors, every Retry.Max >= 1) in which one partition uses one broker worker and the producer is not idempotent; a true hand-over of the partition to a SECOND live worker, several partitions sharing a worker, Retry.Max = 0 and the idempotent paths are decided per run by the oracle on the simulated partition logs only (statement kept as LogOrderGeneral); the composed system model IS trace-validated on every run (`sys` lines, Driver/PipelineTrace.lean + harness/pipe/sys.go): for every scenario in its scope (one partition in use, not idempotent, Retry.Max >= 1, acknowledgements on; about 60% of the quick run) the hook events of the real producer are translated into the model's choices (submit, dispatch, retryOut, ppRecv with the leader-lookup results, bpRecv with the overflow flag, handover, broker verdict with appended-or-not from the simulated broker, deliver, leader moves inferred from where appends happened), every choice must be enabled in Model.Pipeline.sysStep and move the very token the real component moved, and at the end the model's log, success offsets and errors must equal the simulated partition log and the reported outcomes. CAVEAT on the proved scope: the real producer releases its broker worker at every retry-level change and selects a NEW worker, so real runs with a retry are multi-worker runs of the model (replayed and accepted by the executable model, counted as sys-replayed-multi-worker, but covered by the unproved LogOrderGeneral); log_order_single_worker covers the runs counted as sys-replayed-single-worker and the abstraction in which the drained old worker and its successor are one sequential process",
         "Go channels deliver per-sender FIFO (assumed); the submitting goroutine of the harness is single",
     ],
     trusted_base=["hooks in /repo (build tag verif)", "simulated cluster harness/overlay/sim_cluster.go"],
